@@ -210,7 +210,9 @@ def run_case(case):
     with env.Capture() as cap:
         if fam == "synth":
             for _ in range(case["count"]):
-                at = scen.base_tissue(rng, ["vor", "arc", "mob"][int(rng.integers(3))], ncells=int(rng.integers(8, 50)))
+                # lattices bring four-fold junctions, T-junctions and three-cell junctions lying on the outline
+                at = scen.base_tissue(rng, ["vor", "arc", "mob", "vor", "arc", "mob", "lat-square", "lat-brick", "lat-hex"][int(rng.integers(9))],
+                                      ncells=int(rng.integers(8, 50)))
                 if rng.random() < 0.6:
                     at = at.sub(tissue.random_connected_subset(rng, at, int(rng.integers(1, len(at.cells) + 1))))
                 if rng.random() < 0.3 and len(at.cells) > 8:
